@@ -9,56 +9,89 @@ import GqlProofs.Lemmas.VarsFixtures
   `conformsWith` (GqlModel/Vars/Spec.lean).
 
   ────────────────────────────────────────────────────────────────────────────────────────────
-  FULL STATEMENT of C14_total (FALSE of the pinned tree, R14a):
+  FULL STATEMENT of C14_total:
 
       theorem C14_total (s op vars) (schema closed, vars JSON-like) : ∀ msg, coerce s op vars ≠ .panic msg
 
-  `validateVarType` handles an invalid (null) reflect.Value only AFTER the list branch; a `null`
-  list item whose expected type is itself a list reaches `val.Type()` on the zero Value
-  (`C14_total_counterexample`; it also fires with NO variables supplied, from a default value
-  `[null]`: `C14_total_counterexample_default`).  `C14_total_partial` excludes exactly this with
-  the hypothesis `safeB`: no list of the supplied values / converted defaults holds a null item
-  (and no typed map occurs — the second panic of the pinned tree, a `SetMapIndex` assignability
-  panic for e.g. `map[string]string{"c": "1"}` against a field `c: [Int!]`, lies outside the
-  JSON-like domain).  Repair that makes the full statement true for the JSON-like domain: handle
-  the invalid value before the list branch (`legacyNullIntoListPanics := false` in
-  GqlModel/Vars/Model.lean models it; the proof of C14_total_partial does not unfold that switch
-  and needs `safeItemsB` only to know that list items are not null).
+  R14a (REPAIRED in validator/vars.go, `legacyNullIntoListPanics = false` in the model): the list
+  branch of `validateVarType` used to reach `val.Type()` on the zero Value for a `null` list item
+  whose expected type is itself a list; now `if !val.IsValid() { return val, nil }` comes first.
+  The three former witnesses are kept as theorems of normal return (`C14_total_R14a_returns`,
+  `…_default_returns`, `…_field_returns`).
+
+  `C14_total_partial` is the full statement for every variables map that satisfies `safeB`
+  (GqlModel/Vars/Spec.lean).  Since the repair `safeB` no longer forbids null list items; what
+  remains is
+    (1) no TYPED MAP (`map[string]string`, `map[string]int`, …): the `SetMapIndex` assignability
+        panic — e.g. `map[string]string{"c": "1"}` against a field `c: [Int!]`, the coerced `[]string`
+        is not assignable to `string` — is STILL in the tree (X-vars: 71 of 4·10^5 triples).
+        Everything `encoding/json` decodes uses `map[string]interface{}` and satisfies (1);
+    (2) a null item occurs only in `[]interface{}` slices.  This is not a restriction on Go values
+        (an element of a typed slice is never the nil interface) but the representation invariant
+        of `GoVal` (`wfB`) restricted to slices: the model of the list loop asks for the element's
+        `Type()` when a typed slice "holds" `.nil` at a non-null named element type.
+  The hypothesis on default values is gone: converted literals are always safe
+  (`valueValueConst_safe`).
   ────────────────────────────────────────────────────────────────────────────────────────────
 -/
 open Gql Gql.Fixtures
 
-/-- R14a: `query($v: [[Int]])` with `{"v": [null]}` panics in `reflect.Value.Type`. -/
-theorem C14_total_counterexample :
-    coerce schema (opWith (listOf (listOf (named "Int")))) (varsV (islice [.nil])) = .panic typeOnZeroMsg := by
+/-- former R14a witness: `query($v: [[Int]])` with `{"v": [null]}` now returns `{"v": [null]}`. -/
+theorem C14_total_R14a_returns :
+    coerce schema (opWith (listOf (listOf (named "Int")))) (varsV (islice [.nil])) = .ok (varsV (islice [.nil])) := by
   rfl
 
-/-- R14a without any variable supplied: `query($v: [[Int]] = [null])` and the empty map. -/
-theorem C14_total_counterexample_default :
+/-- former R14a witness without any variable supplied: `query($v: [[Int]] = [null])` and the empty
+    map now returns the default `{"v": [null]}`. -/
+theorem C14_total_R14a_default_returns :
     coerce schema
       (opWith (listOf (listOf (named "Int"))) (some (.mk .list [] (.cons [] (lit .null "null") Pos.zero .nil) Pos.zero))) .nil
-      = .panic typeOnZeroMsg := by
+      = .ok (varsV (islice [.nil])) := by
   rfl
 
-/-- R14a inside an input object: `query($v: In)` with `{"v": {"l": [[1, null], null]}}`. -/
-theorem C14_total_counterexample_field :
+/-- former R14a witness inside an input object: `query($v: In)` with `{"v": {"l": [[1, null], null]}}`
+    now returns the map unchanged. -/
+theorem C14_total_R14a_field_returns :
     coerce schema (opWith (named "In"))
-      (varsV (imap [(str "l", islice [islice [int 1, .nil], .nil])])) = .panic typeOnZeroMsg := by
+      (varsV (imap [(str "l", islice [islice [int 1, .nil], .nil])]))
+      = .ok (varsV (imap [(str "l", islice [islice [int 1, .nil], .nil])])) := by
+  rfl
+
+/-- a null list item at a NON-NULL list element type is an error, not a panic -/
+theorem C14_total_R14a_nonnull_errors :
+    coerce schema (opWith (listOf (listOf (named "Int") true))) (varsV (islice [.nil]))
+      = .err (str "cannot be null") [.name (str "variable"), .name (str "v"), .idx 0] [] := by
   rfl
 
 /-- Coercion returns normally (values or an error, never a panic) for every operation over a
-    schema whose input types are closed and every variables map / default value without a null
-    list item (`safeB`). -/
+    schema whose input types are closed and every variables map without typed maps (`safeB`:
+    null list items are allowed; default values need no hypothesis). -/
 theorem C14_total_partial (s : Schema) (op : OperationDef) (vars : VarMap)
     (hclosed : InputsClosed s)
     (hop : ∀ v ∈ op.vars, ∃ d, s.type? v.type.name = some d)
-    (hvars : safeFieldsB vars = true)
-    (hdef : ∀ v ∈ op.vars, ∀ dv x, v.default = some dv → valueValueConst dv = .ok x → safeB x = true) :
+    (hvars : safeFieldsB vars = true) :
     ∀ msg, coerce s op vars ≠ .panic msg := by
   intro msg h
-  have := coerceLoop_noPanic s op vars hclosed hvars op.vars .nil hop hdef
+  have := coerceLoop_noPanic s op vars hclosed hvars op.vars .nil hop
   unfold coerce at h
   simp [h, NoPanic] at this
+
+/-- C14_total for the domain of `encoding/json`: a variables map in which every container is a
+    `[]interface{}` or a `map[string]interface{}` (null items and entries allowed) is coerced
+    without a panic.  FALSE before the repair of R14a (`C14_total_R14a_returns` was its
+    counterexample). -/
+theorem C14_total_jsonLike (s : Schema) (op : OperationDef) (vars : VarMap)
+    (hclosed : InputsClosed s)
+    (hop : ∀ v ∈ op.vars, ∃ d, s.type? v.type.name = some d)
+    (hvars : jsonLikeFieldsB vars = true) :
+    ∀ msg, coerce s op vars ≠ .panic msg :=
+  C14_total_partial s op vars hclosed hop (jsonLikeFields_safe vars hvars)
+
+/-- the remaining panic of the list/object walk (typed maps, outside `safeB`): `$v: In` with
+    `map[string]int{"l": 1}` — the coerced list is not assignable to `int` (`SetMapIndex`). -/
+theorem C14_total_counterexample_typedMap :
+    ∃ msg, coerce schema (opWith (named "In")) (varsV (.map (.int .int) (.cons (str "l") (int 1) .nil))) = .panic msg :=
+  ⟨_, rfl⟩
 
 /-- Absent variables take their defaults (1): every declared variable that has a default has an
     entry in the result — the hypothesis `DefaultsSupplied` of C15_precedence. -/
@@ -89,40 +122,71 @@ theorem C14_defaults (s : Schema) (op : OperationDef) (vars m : VarMap)
 
 /-
   ────────────────────────────────────────────────────────────────────────────────────────────
-  FULL STATEMENTS of C14_conforms / C14_rejects (both FALSE of the pinned tree):
+  FULL STATEMENTS of C14_conforms / C14_rejects (both FALSE of the tree):
 
       theorem C14_conforms : coerce s op vars = .ok m → ∀ v ∈ op.vars, ∀ y, m.lookup v.var = some y → Conforms s v.type y
       theorem C14_rejects  : (∃ v ∈ op.vars, ∃ x, vars.lookup v.var = some x ∧ ¬ Coercible s v.type x) → ∀ m, coerce s op vars ≠ .ok m
 
-  The pinned code is more lenient than the strict reading at six points; each has a
-  kernel-checked counterexample below and is one field of `Leniency` (GqlModel/Vars/Spec.lean):
-    flatNested (R14d)       `$v: [[Int]]` = `[1,2]` returns `[1,2]`: the coerced inner lists are discarded
+  R14d (REPAIRED by r14d.patch, `legacyDiscardNestedListResult = false` in the model): the coerced
+  list item used to be discarded (`_, err := v.validateVarType(typ.Elem, field)`), so `$v: [[Int]]`
+  = `[1,2]` returned `[1,2]`; now the coerced item is stored back and the result is `[[1],[2]]`.
+  The former witness is kept as a theorem of conforming return (`C14_conforms_R14d_returns`, plus
+  `…_single_returns`, `…_field_returns`, `…_typed_returns`).
+
+  The code is still more lenient than the strict reading at FIVE points; each has a kernel-checked
+  counterexample below and is one field of `Leniency` (GqlModel/Vars/Spec.lean):
     enumFold (R14b)         `$v: Color` = "red" is accepted for `enum Color { RED }`
     typenameKey (R14c)      an input object keeps the undeclared key `__typename`
     fractionalInt           `$v: Int` = 1.5 (float64) is accepted
     numericStrings          `$v: Int` = "12" (a string) is accepted
     jsonNumberAsString      `$v: String` = json.Number("12") is accepted
-  `C14_conforms_partial` / `C14_rejects_partial` are the statements with `conformsWith .legacy`
-  (all six leniencies granted) in place of `Conforms` / `Coercible`; they are PROVED for variables
-  whose named type is a scalar or an enum under any list nesting (`LeafTyped`).  NOT FINISHED:
-  the same statement for input-object types (the `fieldLoop` invariant: keys preserved, every
-  visited entry replaced by a conforming value, required fields present; needs unique field names
-  and unique map keys).  For input objects the claim is covered by exploration only: the harness
-  judges every value Go returns with `conformsWith .legacy` (X-vars: no violation in 2·10^5
-  results) and attributes each strict violation to the leniencies above.
-  Repairs that make the strict statements true: store the coerced element back (R14d,
-  `legacyDiscardNestedListResult := false`), compare enum names exactly, reject `__typename` /
+  (the sixth field, `flatNested`, now only describes SUPPLIED values: the single-value-to-list
+  coercion of the GraphQL spec, part of `Coercible`).
+  `C14_conforms_partial` is the statement with `conformsWith .afterR14d` (the five leniencies, list
+  nesting EXACT) in place of `Conforms` — before the repair it could only be stated with
+  `.legacy`, i.e. granting `flatNested` to results; `C14_rejects_partial` is the statement with
+  `conformsWith .legacy` (five leniencies + single-value-to-list coercion) in place of `Coercible`.
+  Both are PROVED for variables whose named type is a scalar or an enum under any list nesting
+  (`LeafTyped`).  NOT FINISHED: the same statement for input-object types (the `fieldLoop`
+  invariant: keys preserved, every visited entry replaced by a conforming value, required fields
+  present; needs unique field names and unique map keys).  For input objects the claim is covered
+  by exploration only: the harness judges every value Go returns with `conformsWith .afterR14d`
+  and `.legacy` (C14 check: no violation in 4·10^5 results) and attributes each strict violation
+  to the leniencies above.
+  Repairs that make the strict statements true: compare enum names exactly, reject `__typename` /
   fractional floats for Int / strings for Int and Float / json.Number for String.
   ────────────────────────────────────────────────────────────────────────────────────────────
 -/
 
-/-- R14d: nested list results are discarded: `$v: [[Int]]` = `[1,2]` yields `[1,2]`, not `[[1],[2]]`. -/
-theorem C14_conforms_counterexample :
+/-- former R14d witness: `$v: [[Int]]` = `[1,2]` now yields `[[1],[2]]`, which conforms strictly. -/
+theorem C14_conforms_R14d_returns :
     coerce schema (opWith (listOf (listOf (named "Int")))) (varsV (islice [int 1, int 2]))
-        = .ok (varsV (islice [int 1, int 2]))
-    ∧ ¬ Conforms schema (listOf (listOf (named "Int"))) (islice [int 1, int 2])
+        = .ok (varsV (islice [.slice (.int .int) (.cons (int 1) .nil), .slice (.int .int) (.cons (int 2) .nil)]))
+    ∧ Conforms schema (listOf (listOf (named "Int")))
+        (islice [.slice (.int .int) (.cons (int 1) .nil), .slice (.int .int) (.cons (int 2) .nil)])
     ∧ Coercible schema (listOf (listOf (named "Int"))) (islice [int 1, int 2]) := by
   refine ⟨by rfl, by decide, by decide⟩
+
+/-- `$v: [[Int]]` = `1` yields `[[1]]` (as `[]interface{}{[]int{1}}`). -/
+theorem C14_conforms_R14d_single_returns :
+    coerce schema (opWith (listOf (listOf (named "Int")))) (varsV (int 1))
+        = .ok (varsV (islice [.slice (.int .int) (.cons (int 1) .nil)]))
+    ∧ Conforms schema (listOf (listOf (named "Int"))) (islice [.slice (.int .int) (.cons (int 1) .nil)]) := by
+  refine ⟨by rfl, by decide⟩
+
+/-- a typed list `[]int{1,2}` for `[[Int]]` cannot hold the coerced items: the result is rebuilt as
+    `[]interface{}{[]int{1}, []int{2}}`. -/
+theorem C14_conforms_R14d_typed_returns :
+    coerce schema (opWith (listOf (listOf (named "Int")))) (varsV (.slice (.int .int) (.cons (int 1) (.cons (int 2) .nil))))
+        = .ok (varsV (islice [.slice (.int .int) (.cons (int 1) .nil), .slice (.int .int) (.cons (int 2) .nil)])) := by
+  rfl
+
+/-- the same inside an input object: `$v: In` = `{"l": [1, [2]]}` yields `{"l": [[1], [2]]}`. -/
+theorem C14_conforms_R14d_field_returns :
+    coerce schema (opWith (named "In")) (varsV (imap [(str "l", islice [int 1, islice [int 2]])]))
+        = .ok (varsV (imap [(str "l", islice [.slice (.int .int) (.cons (int 1) .nil), islice [int 2]])]))
+    ∧ Conforms schema (named "In") (imap [(str "l", islice [.slice (.int .int) (.cons (int 1) .nil), islice [int 2]])]) := by
+  refine ⟨by rfl, by decide⟩
 
 /-- R14b: enum values are matched case-insensitively. -/
 theorem C14_conforms_counterexample_enumFold :
@@ -157,23 +221,32 @@ theorem C14_conforms_counterexample_jsonNumber :
   refine ⟨by rfl, by decide⟩
 
 /-- When coercion returns values, the value of every declared variable of a scalar- or enum-based
-    type (any list nesting) conforms to its declared type up to the six enumerated leniencies. -/
+    type (any list nesting) conforms to its declared type up to the FIVE enumerated leniencies; in
+    particular every list position holds a list of exactly the declared depth (false before the
+    repair of R14d, where only `conformsWith .legacy` — `flatNested` granted — could be proved).
+    `hwf` (new with the repair of R14a) is the representation invariant of `GoVal`, true of every
+    Go value: `.nil` only inside `interface{}` containers.  Before the repair an ill-formed typed
+    slice "holding" `.nil` at a list element type made the model panic; now the model returns it,
+    and `.slice (.slice int) [.nil]` would be a non-conforming result for `[[Int]!]`. -/
 theorem C14_conforms_partial (s : Schema) (op : OperationDef) (vars m : VarMap)
     (hplain : EnumNamesPlain s) (hnodup : (op.vars.map (·.var)).Nodup)
+    (hwf : wfFieldsB true vars = true)
     (h : coerce s op vars = .ok m) :
-    ∀ v ∈ op.vars, LeafTyped s v.type → ∀ y, m.lookup v.var = some y → conformsWith .legacy s v.type y = true := by
+    ∀ v ∈ op.vars, LeafTyped s v.type → ∀ y, m.lookup v.var = some y → conformsWith .afterR14d s v.type y = true := by
   intro v hv ht y hy
   obtain ⟨acc, c, h1, h2, h3⟩ := coerceLoop_entry op.vars .nil m hnodup h v hv
-  rcases coerceVar_shape h1 with ⟨e, _⟩ | ⟨x, y', _, e2, _⟩
+  rcases coerceVar_shape h1 with ⟨e, _⟩ | ⟨x, y', e1, e2, _⟩
   · rw [h2, e, h3] at hy; simp [GoFields.lookup] at hy
-  · obtain ⟨⟨y'', e3, hc⟩, _⟩ := coerceSupplied_conforms s hplain op v acc c x ht e2
+  · obtain ⟨⟨y'', e3, hc⟩, _⟩ := coerceSupplied_conforms s hplain op v acc c x ht (suppliedValue_wf hwf e1) e2
     rw [h2, e3, GoFields.lookup_set] at hy
     simp at hy; subst hy; exact hc
 
 /-- Coercion returns an error rather than values whenever a supplied value of a scalar- or
-    enum-based type cannot conform even with the six leniencies (and single-value-to-list coercion). -/
+    enum-based type cannot conform even with the five leniencies and single-value-to-list coercion.
+    `hwf`: see C14_conforms_partial. -/
 theorem C14_rejects_partial (s : Schema) (op : OperationDef) (vars : VarMap)
     (hplain : EnumNamesPlain s) (hnodup : (op.vars.map (·.var)).Nodup)
+    (hwf : wfFieldsB true vars = true)
     (v : VarDef) (hv : v ∈ op.vars) (ht : LeafTyped s v.type)
     (x : GoVal) (hx : vars.lookup v.var = some x) (hbad : conformsWith .legacy s v.type x = false) :
     ∀ m, coerce s op vars ≠ .ok m := by
@@ -183,7 +256,7 @@ theorem C14_rejects_partial (s : Schema) (op : OperationDef) (vars : VarMap)
   rcases coerceVar_shape h1 with ⟨_, e⟩ | ⟨x', y', e1, e2, _⟩
   · rw [hs] at e; simp at e
   · rw [hs] at e1; cases e1
-    have := (coerceSupplied_conforms s hplain op v acc c x ht e2).2
+    have := (coerceSupplied_conforms s hplain op v acc c x ht (suppliedValue_wf hwf hs) e2).2
     simp [CL, hbad] at this
 
 /- non-vacuity of the hypotheses of C14_conforms_partial / C14_rejects_partial -/
@@ -197,6 +270,7 @@ example : EnumNamesPlain schema := by
 example : LeafTyped schema (listOf (listOf (named "Color"))) := ⟨colorDef, by rfl, Or.inr rfl⟩
 example : coerce schema (opWith (listOf (named "Color"))) (varsV (.str (str "RED")))
     = .ok (varsV (.slice .string (.cons (.str (str "RED")) .nil))) := by rfl
+example : conformsWith .afterR14d schema (listOf (listOf (named "Int"))) (islice [int 1, int 2]) = false := by decide
 example : conformsWith .legacy schema (named "Color") (.str (str "GREEN")) = false := by decide
 
 /- non-vacuity of C14_total_partial / C14_defaults: an operation with a default, coerced with the
@@ -204,3 +278,8 @@ example : conformsWith .legacy schema (named "Color") (.str (str "GREEN")) = fal
 example : coerce schema (opWith (named "Int") (some (lit .int "5"))) .nil
     = .ok (.cons (str "v") (.int .int64 5) .nil) := by rfl
 example : safeFieldsB (varsV (islice [int 1, islice [int 2]])) = true := by decide
+/- null list items, typed slices and nested `map[string]interface{}` maps are inside `safeB` / `wfB` -/
+example : safeFieldsB (varsV (islice [.nil, islice [int 2, .nil], .slice (.int .int) (.cons (int 3) .nil),
+    imap [(str "l", islice [.nil])]])) = true := by decide
+example : jsonLikeFieldsB (varsV (islice [.nil, imap [(str "l", islice [islice [int 1, .nil], .nil])]])) = true := by decide
+example : wfFieldsB true (varsV (islice [.nil, .map (.int .int) (.cons (str "l") (int 1) .nil)])) = true := by decide
